@@ -99,7 +99,7 @@ func H_C23_edits() {
 	}
 	// subtrees removed by the request: any of the three delete targets and one JSON replace
 	var removed [][]*gpb.PathElem
-	for d := 0; d < 3; d++ {
+	for d := 0; d < 4; d++ { // 3 = the root (conflicts with any other delete: those requests are rejected)
 		if symBool("del") {
 			st := c22Subtree(d, key)
 			req.Delete = append(req.Delete, c22P(st...))
